@@ -41,11 +41,20 @@ def strategy_(draw):
         grid = draw(gen.grid(classes=("uniform", "geometric", "function"), localize=False))
         return {"kind": "chain", "order": k, "rows": draw(st.sampled_from([1, 1, 2])), "N": N, "M": M, "grid": grid, "T": draw(st.sampled_from([1.0, 2.0, 0.5])), "t0": draw(st.sampled_from([0.0, 1.0])),
                 "rng": draw(st.integers(0, 2**31 - 1))}
-    tab = draw(gen.symbol_table(max_states=2, max_controls=1, max_params=2, max_vars=2, grids=("", "control")))
+    dae = draw(st.integers(0, 3)) == 0
+    tab = draw(gen.symbol_table(max_states=2, max_controls=1, max_params=2, max_vars=2, grids=("", "control"), alg=1 if dae else 0))
     sp = {"name": "main"}
     sp.update(tab)
     sp["T"], sp["t0"] = ["num", 1.0], ["num", 0.0]
     sp["der"] = gen.dynamics(draw, tab, t_prob=8)
+    if dae:
+        # a semi-explicit DAE: the algebraic value enters every right-hand side (der(e) is taken along f(x,u,z,p,t))
+        z = E.S(tab["algebraics"][0]["name"], 0)
+        for name, exprs in sp["der"]:
+            for i in range(len(exprs)):
+                exprs[i] = ["+", exprs[i], ["*", E.C(draw(gen.coef())), z]]
+        x0 = gen.leaves_of(tab["states"])[0]
+        sp["alg"] = [[["-", z, ["*", ["sin", ["t"]], x0]]]]
     gen.fill_param_values(draw, sp, 2)
     horder = draw(st.sampled_from([0, 0, 1, 2, 3]))
     sorder = draw(st.sampled_from([0, 0, 1, 2, 4]))
@@ -91,6 +100,8 @@ def classify(case):
         labs.append("bspline signal")
     if any(E.has_op(e, "t") for e in case["expr"]):
         labs.append("explicit t")
+    if case["spec"].get("alg"):
+        labs.append("DAE right-hand side")
     return labs
 
 
